@@ -182,7 +182,12 @@ def run(ctx):
     ps["frag-3SGB-E-ASP-without-oxygens"] = [ln for ln in e if not (ln[17:20] == "ASP" and ln[12:16].strip() in ("OD1", "OD2"))]
     trunc = [("frag-3SGB-E-ASP-without-oxygens", "frag-1FTJ", 30000, (1, 0, 0), 0, False),
              ("frag-3SGB-E-ASP-without-oxygens", "frag-3SGB-I", 300000, (0, -1, 0), 1, False)]
-    combos += trunc if ctx.thorough() else [trunc[0]]
+    # the same with the intact part sitting around the coordinate origin (where a group centre that was never set would be)
+    cx_, cy_, cz_ = C.centroid(ps["frag-1FTJ"])
+    ps["frag-1FTJ@origin"] = C.translate(ps["frag-1FTJ"], -int(cx_), -int(cy_), -int(cz_))
+    trunc.append(("frag-1FTJ@origin", "frag-3SGB-E-ASP-without-oxygens", 300000, (1, 0, 0), 1, False))
+    trunc.append(("frag-1FTJ@origin", "frag-3SGB-E-ASP-without-oxygens", 60000, (0, 0, 1), 0, False))
+    combos += trunc if ctx.thorough() else [trunc[0], trunc[2 + ctx.seed % 2]]
     # two chains that each start with an aspartate (two covalently coupled systems), scored with the optional settings of
     # that coupling (names ending in [tag]: parameter-file variant of c02.PARAMS)
     ps["frag-3SGB-I [ccc]"] = C.chain_lines("3SGB", "I", 0, 14)
